@@ -136,7 +136,16 @@ func plan() harness.Plan {
 }
 
 func TestProperty(t *testing.T) {
-	harness.Run(t, plan())
+	p := plan()
+	p.Checks = append(p.Checks, harness.Check{Name: "edge_documents", Prop: prop, Rule: "enumerated: every special line as the last line of every context (gen.EdgeDocs), re-parsed through all four readers: " + rule})
+	p.After = func(t *testing.T) {
+		harness.EnumerateInputs(t, p, "edge_documents", gen.EdgeDocs(), func(i int, in []byte) harness.Case {
+			c := harness.Case{In: in}
+			c.SetI("rmode", i%4)
+			return c
+		}, prop)
+	}
+	harness.Run(t, p)
 }
 
 // FuzzProperty is the native coverage-guided fuzz entry (thorough tier).
